@@ -16,7 +16,8 @@ from .c08 import expectation
 ID = "C16"
 
 LINKS = ["child", "child", "children", "children", "table"]
-ALLOWED = ("set_child", "set_children", "list", "set_table", "dict")
+LINKS_SET = LINKS + ["group", "group"]
+ALLOWED = ("set_child", "set_children", "list", "set_table", "dict", "set_group", "set")
 LIST_OK = ("append", "insert", "extend", "iadd", "delitem_i", "delitem_s", "setitem_i",
            "setitem_s", "pop", "pop_last", "clear", "reverse")
 DICT_OK = ("setitem", "delitem", "pop", "pop_default", "update_map", "update_pairs", "popitem",
@@ -31,8 +32,11 @@ def freshen(x):
         if "at" in x:
             # (would re-insert an item that is in the list already)
             x = {k: v for k, v in x.items() if k != "at"}
-        if "n" in x and set(x) <= {"n", "t"}:
+        if "n" in x and set(x) <= {"n", "t", "cur"}:
+            # ("cur" names a current member of the very set that is operated on: no sharing)
             d = {"fresh": 1}
+            if "cur" in x:
+                d["cur"] = x["cur"]
             if "t" in x:
                 d["t"] = "ref"
             return d
@@ -53,7 +57,7 @@ def observe_ast(steps):
     b = []
     for name, notify in steps:
         b.append(["t", name, notify])
-        if name in ("children", "table"):
+        if name in ("children", "table", "group"):
             b.append(["items", None, notify])
     b.append(["t", "value", True])
     return [b]
@@ -109,11 +113,13 @@ class Prop:
         c = stream(seed, "config")
         r = stream(seed, "ops")
         nlinks = deep(c, [1, 1, 2, 2, 3], [4])
-        steps = [[c.choice(LINKS), c.random() < 0.7] for _ in range(nlinks)]
+        eq_nodes = c.random() < 0.4
+        # (value objects stay out of sets: which of two equal members is kept is unspecified)
+        steps = [[c.choice(LINKS if eq_nodes else LINKS_SET), c.random() < 0.7]
+                 for _ in range(nlinks)]
         nops = deep(c, [4, 8, 12, 18, 24, 30], [45, 60])
         arity = c.choice([0, 3, 4, 4])
         remove_at = c.choice([None, None, None, c.randrange(nops + 1)])
-        eq_nodes = c.random() < 0.4
         ops = []
         while len(ops) < nops:
             x = r.random()
@@ -129,6 +135,8 @@ class Prop:
             if op["k"] == "list" and op["op"]["k"] not in LIST_OK:
                 continue
             if op["k"] == "dict" and op["op"]["k"] not in DICT_OK:
+                continue
+            if op["k"] in ("set", "set_group") and eq_nodes:
                 continue
             op = freshen(op)
             op["o"] = 0 if r.random() < 0.35 else r.randrange(12)
